@@ -193,6 +193,16 @@ func payloadID(p *mainsvc.Payload) int64 {
 	return 0
 }
 
+// bigText returns n bytes of valid UTF-8 with some variation.
+func bigText(r *rand.Rand, n int) string {
+	b := make([]byte, n)
+	off := r.Intn(26)
+	for i := range b {
+		b[i] = byte('a' + (i+off)%26)
+	}
+	return string(b)
+}
+
 var headerNames = []string{"k", "trace", "X-Request", "ünï", "a b", "with:colon", "tenant_id", "n"}
 
 func genHeaders(r *rand.Rand) map[string]string {
